@@ -331,18 +331,25 @@ class JSONPointer:
             uri_decode=False,
         )
 
+    def _tokens(self) -> Tuple[str, ...]:
+        # RFC 6901 reference tokens are strings, however the parts were built
+        # (parsed indices are ints, parts given by the caller might not be).
+        return tuple(str(part) for part in self.parts)
+
     def is_relative_to(self, other: JSONPointer) -> bool:
         """Return _True_ if this pointer points to a child of _other_."""
+        tokens = self._tokens()
+        other_tokens = other._tokens()
         return (
-            len(other.parts) < len(self.parts)
-            and self.parts[: len(other.parts)] == other.parts
+            len(other_tokens) < len(tokens)
+            and tokens[: len(other_tokens)] == other_tokens
         )
 
     def __eq__(self, other: object) -> bool:
-        return isinstance(other, JSONPointer) and self.parts == other.parts
+        return isinstance(other, JSONPointer) and self._tokens() == other._tokens()
 
     def __hash__(self) -> int:
-        return hash(self.parts)
+        return hash(self._tokens())
 
     def __repr__(self) -> str:
         return f"JSONPointer({self._s!r})"
